@@ -449,6 +449,11 @@ func init() {
 			return m.strBinop(token.EQL, mkStr(a[0].([]value)), mkStr(a[1].([]value)))
 		},
 		"bytes.Equal": func(m *Machine, fr *frame, a []value) value {
+			if m.path != nil && len(m.path.blobs) > 0 {
+				if eq, ok := m.jsonTextsEqual(a[0], a[1]); ok {
+					return eq
+				}
+			}
 			return m.strBinop(token.EQL, mkStr(a[0].([]value)), mkStr(a[1].([]value)))
 		},
 		"internal/bytealg.Compare": func(m *Machine, fr *frame, a []value) value {
